@@ -1,9 +1,46 @@
-import Upa.Proofs.ParseRepFinal
+import Upa.Proofs.ParseRepTop
 /-
-  C05e (first part: no base URL)
+  C05e — the PARSER executed on the stored representation.
+
+  `Impl.parseRep` (Upa/Impl/ParseRep.lean) is the operational model of `url::do_parse` /
+  `url_parser::url_parse` without state override driving a `detail::url_serializer` on a fresh
+  `upa::url`: start_scheme / save_scheme / set_scheme, start_part / save_part with the explicit
+  `last_pt_`, the direct appends of the path segments, shorten_path, commit_path, set_empty_host,
+  empty_host, hostStart / hostDone and `append_parts(base, t1, t2, pathOpFn)` reading the RAW
+  representation of the base (zeros of never-started parts included).  It was validated against the
+  real library on 2 265 666 parses (see the header of Impl/ParseRep.lean): exact equality of
+  `norm_url_`, the eleven `part_end_`, the flag bits, `path_segment_count_`, the scheme index.
+
+  This file proves that it computes a representation of the record the record-level parser
+  `Impl.parse` computes (the one C01 ties to the Standard):
+
+      parseRep idna e units rbase = some r,  parse idna e units base = some u   ⟹   RepFor r u
+      (parseRep …).isSome = (parse …).isSome
+
+  without a base (`C05e_parse_nobase`) and with a base `b` given by ANY representation `rb` of it
+  (`RepFor rb b`: any pattern of never-started trailing parts — `C05e_parse_base`; this is where
+  `append_parts` is proved).  `RepFor r u := r ≈ layout u ∧ r.wf` (C05b); the `_exact` variants say
+  which trailing offsets are `0`: exactly those after the last started part `l = last_pt_ ≥ HOST`,
+  the others being those of the from-scratch layout.  Composed with C05d (`C05e_parse_then_setters`):
+  after a parse followed by any history of non-href setter calls, all executed on the stored
+  representation, every getter computed from the offsets is the getter of the record the
+  record-level (Standard-conformant) parser and setters compute.
+
+  Hypotheses on the base record `b` (all decidable; every parsed URL satisfies them: `C05e_norm_base`,
+  `C05e_parse_repok`):
+    RepOk b, HostInv b, RecShape b     as in C05d
+    b.isFile → b.port = none           needed (`C05e_base_needs_file_noport`): `append_parts(base, HOST, …)`
+                                       copies the port text of a file base, the Standard's file state
+                                       copies host, path and query only; no parse and no setter history
+                                       gives a file URL a port (Norm of C02, `canHaveUsernamePasswordPort`).
+  No hypothesis on the IDNA parameter is needed for the representation theorems (the host parser is
+  the same function on both sides); `IdnaStable` of C02 is used only to know that parsed URLs are
+  in normal form (`C05e_parse_repok`, `C05e_parse_then_setters`).
 -/
 namespace Upa.Props
 open Upa Upa.Impl Upa.Proofs.C05 Upa.Proofs.SetRep Upa.Proofs.SetRepApi Upa.Proofs.ParseRep
+
+/-! ## 1. no base URL -/
 
 /-- Without a base URL: `parseRep` succeeds exactly when the record-level parser `parse` succeeds, and
     the raw representation it yields is a representation of the record `parse` yields. -/
@@ -11,7 +48,11 @@ theorem C05e_parse_nobase :
     ∀ (idna : Idna) (e : Enc) (units : List Nat),
       (parseRep idna e units none).isSome = (parse idna e units none).isSome ∧
       ∀ (r : Rep) (u : Url), parseRep idna e units none = some r → parse idna e units none = some u →
-        RepFor r u := by
+        RepFor r u ∧
+        -- the raw offsets: the layout's up to the last started part `l`, `0` after it
+        ∃ l, 5 ≤ l ∧ l ≤ 10 ∧
+          r = { layout u with partEnd := (layout u).partEnd.take (l + 1) ++ List.replicate (10 - l) 0 } ∧
+          ∀ i, l < i → i ≤ 10 → (layout u).pe i = (layout u).norm.length := by
   intro idna e units
   have h := sim_urlParse_nobase idna (prep e (doTrim units))
   have hp := parse_eq idna e units none
@@ -25,11 +66,283 @@ theorem C05e_parse_nobase :
     simp only [Agree] at h
     rw [hp, if_pos h.1] at hu
     rw [← Option.some.inj hu]
-    exact h.2.repFor
+    exact ⟨h.2.repFor, h.2.exact⟩
 
+/-- the same as an equivalence -/
+theorem C05e_parse_nobase_iff :
+    ∀ (idna : Idna) (e : Enc) (units : List Nat),
+      (∀ r, parseRep idna e units none = some r → ∃ u, parse idna e units none = some u ∧ RepFor r u) ∧
+      (∀ u, parse idna e units none = some u → ∃ r, parseRep idna e units none = some r ∧ RepFor r u) := by
+  intro idna e units
+  obtain ⟨h1, h2⟩ := C05e_parse_nobase idna e units
+  constructor
+  · intro r hr
+    cases hp : parse idna e units none with
+    | none => rw [hr, hp] at h1; simp at h1
+    | some u => exact ⟨u, rfl, (h2 r u hr hp).1⟩
+  · intro u hu
+    cases hp : parseRep idna e units none with
+    | none => rw [hu, hp] at h1; simp at h1
+    | some r => exact ⟨r, rfl, (h2 r u hp hu).1⟩
+
+-- an evaluated instance: credentials, IPv6 host, port, dot segments, query, fragment; the raw
+-- representation is the one the C++ object has (here every part is started)
 example :
-    parseRep c05dIdna .u8 (asciiStr " HTTPS://user:pw@EXAMPLE.org:8080/x/../a/b?q=1#frag") none =
-      some (layout c05Full) := by decide +kernel
+    parseRep c05dIdna .u8 (asciiStr " http://u:p@[0::1]:8080/a/../x?y#z ") none =
+      some { norm := asciiStr "http://u:p@[::1]:8080/x?y#z",
+             partEnd := [4, 7, 8, 10, 11, 16, 21, 21, 23, 25, 27],
+             hostNotNull := true, portNotNull := true, queryNotNull := true, fragmentNotNull := true,
+             opaquePath := false, hostType := 4, segCount := 1, schemeIdx := some 3 } ∧
+    parse c05dIdna .u8 (asciiStr " http://u:p@[0::1]:8080/a/../x?y#z ") none =
+      some { scheme := asciiStr "http", username := asciiStr "u", password := asciiStr "p",
+             host := some ⟨.ipv6, asciiStr "[::1]"⟩, port := some 8080, path := [asciiStr "x"],
+             query := some (asciiStr "y"), fragment := some (asciiStr "z") } := by decide +kernel
+-- never-started trailing parts keep offset 0; "/." prefix; default port not written
+example :
+    (parseRep c05dIdna .u8 (asciiStr "a:/.//p") none).map (fun r => (r.norm, r.partEnd, r.segCount)) =
+      some (asciiStr "a:/.//p", [1, 2, 2, 2, 2, 2, 2, 4, 7, 0, 0], 2) ∧
+    (parseRep c05dIdna .u8 (asciiStr "s://h") none).map (fun r => (r.norm, r.partEnd)) =
+      some (asciiStr "s://h", [1, 4, 4, 4, 4, 5, 0, 0, 0, 0, 0]) ∧
+    (parseRep c05dIdna .u8 (asciiStr "https://h:443") none).map (fun r => (r.norm, r.partEnd)) =
+      some (asciiStr "https://h/", [5, 8, 8, 8, 8, 9, 9, 9, 10, 0, 0]) ∧
+    parseRep c05dIdna .u8 (asciiStr "http://u@/x") none = none ∧
+    parse c05dIdna .u8 (asciiStr "http://u@/x") none = none := by decide +kernel
+
+/-! ## 2. with a base URL -/
+
+/-- With a base URL given by ANY representation `rb` of the base record `b`: `parseRep` succeeds
+    exactly when `parse` succeeds, and yields a representation of the record `parse` yields. -/
+theorem C05e_parse_base :
+    ∀ (idna : Idna) (e : Enc) (units : List Nat) (b : Url) (rb : Rep),
+      RepOk b → HostInv b → RecShape b → (b.isFile = true → b.port = none) → RepFor rb b →
+      (parseRep idna e units (some rb)).isSome = (parse idna e units (some b)).isSome ∧
+      ∀ (r : Rep) (u : Url), parseRep idna e units (some rb) = some r → parse idna e units (some b) = some u →
+        RepFor r u ∧
+        ∃ l, 5 ≤ l ∧ l ≤ 10 ∧
+          r = { layout u with partEnd := (layout u).partEnd.take (l + 1) ++ List.replicate (10 - l) 0 } ∧
+          ∀ i, l < i → i ≤ 10 → (layout u).pe i = (layout u).norm.length := by
+  intro idna e units b rb h1 h2 h3 h4 hrb
+  have ok : BaseOk b := ⟨h1, h2, h3, h4⟩
+  obtain ⟨B, hB, rfl⟩ := base_present ok hrb
+  have h := sim_urlParse_base idna ok hB (prep e (doTrim units))
+  have hp := parse_eq idna e units (some b)
+  constructor
+  · show (urlParseSer idna (some (mkRep (layout b) B)) Ser.new (prep e (doTrim units))).isSome = _
+    rw [agree_isSome h, hp]
+    split <;> simp_all
+  · intro r u hr hu
+    have hr' : urlParseSer idna (some (mkRep (layout b) B)) Ser.new (prep e (doTrim units)) = some r := hr
+    rw [hr'] at h
+    simp only [Agree] at h
+    rw [hp, if_pos h.1] at hu
+    rw [← Option.some.inj hu]
+    exact ⟨h.2.repFor, h.2.exact⟩
+
+/-- in particular from the from-scratch layout of the base -/
+theorem C05e_parse_base_layout :
+    ∀ (idna : Idna) (e : Enc) (units : List Nat) (b : Url),
+      RepOk b → HostInv b → RecShape b → (b.isFile = true → b.port = none) →
+      ∀ (r : Rep) (u : Url), parseRep idna e units (some (layout b)) = some r →
+        parse idna e units (some b) = some u → RepFor r u :=
+  fun idna e units b h1 h2 h3 h4 r u hr hu =>
+    ((C05e_parse_base idna e units b (layout b) h1 h2 h3 h4 (C05b_layout b h1.1)).2 r u hr hu).1
+
+/-- the normal form of C02 (every parsed URL under `IdnaStable`) implies the four hypotheses -/
+theorem C05e_norm_base : ∀ (idna : Idna) (b : Url), Norm idna b →
+    RepOk b ∧ HostInv b ∧ RecShape b ∧ (b.isFile = true → b.port = none) := by
+  intro idna b h
+  obtain ⟨a1, a2, a3⟩ := C05d_norm_ok idna b h
+  obtain ⟨_, _, _, _, _, h6, _⟩ := h
+  exact ⟨a1, a2, a3, fun hf => (h6 (Or.inl hf)).2.2⟩
+
+/-- a relative reference with ".." against a file base with a drive letter (the drive letter is
+    kept: `get_shorten_path`), the base given as `parseRep` (= the C++) leaves it -/
+example :
+    ∃ rb, parseRep c05dIdna .u8 (asciiStr "file:///C:/a/b/c") none = some rb ∧
+      rb.partEnd = [4, 7, 7, 7, 7, 7, 7, 7, 16, 0, 0] ∧
+      (parseRep c05dIdna .u8 (asciiStr "../x") (some rb)).map (fun r => (r.norm, r.partEnd, r.segCount)) =
+        some (asciiStr "file:///C:/a/x", [4, 7, 7, 7, 7, 7, 7, 7, 14, 0, 0], 3) ∧
+      (parseRep c05dIdna .u8 (asciiStr "../../../../x/.") (some rb)).map (fun r => (r.norm, r.segCount)) =
+        some (asciiStr "file:///C:/x/", 3) ∧
+      parse c05dIdna .u8 (asciiStr "../x") (parse c05dIdna .u8 (asciiStr "file:///C:/a/b/c") none) =
+        some { scheme := sFile, host := some emptyHost, path := [asciiStr "C:", asciiStr "a", asciiStr "x"] } :=
+  ⟨_, rfl, by decide +kernel⟩
+/-- `a:/.//p` + `?q` (the "/." prefix is copied with the path), + `..//x` (it is recomputed), and a
+    fragment-only reference against an opaque path -/
+example :
+    ∃ rb, parseRep c05dIdna .u8 (asciiStr "a:/.//p") none = some rb ∧
+      (parseRep c05dIdna .u8 (asciiStr "?q") (some rb)).map (fun r => (r.norm, r.partEnd, r.segCount)) =
+        some (asciiStr "a:/.//p?q", [1, 2, 2, 2, 2, 2, 2, 4, 7, 9, 0], 2) ∧
+      (parseRep c05dIdna .u8 (asciiStr "..//x") (some rb)).map (fun r => (r.norm, r.partEnd, r.segCount)) =
+        some (asciiStr "a:/.//x", [1, 2, 2, 2, 2, 2, 2, 4, 7, 0, 0], 2) ∧
+      parse c05dIdna .u8 (asciiStr "?q") (parse c05dIdna .u8 (asciiStr "a:/.//p") none) =
+        some { scheme := asciiStr "a", path := [[], asciiStr "p"], query := some (asciiStr "q") } :=
+  ⟨_, rfl, by decide +kernel⟩
+example :
+    ∃ rb, parseRep c05dIdna .u8 (asciiStr "mailto:a@b?s") none = some rb ∧
+      (parseRep c05dIdna .u8 (asciiStr "#f") (some rb)).map (fun r => (r.norm, r.partEnd)) =
+        some (asciiStr "mailto:a@b?s#f", [6, 7, 7, 7, 7, 7, 7, 7, 10, 12, 14]) ∧
+      parseRep c05dIdna .u8 (asciiStr "x") (some rb) = none :=
+  ⟨_, rfl, by decide +kernel⟩
+-- an instance of the theorem with a representation of the base that is NOT its layout
+-- (`s://h` as the C++ leaves it: nothing after HOST started)
+example :
+    RepFor c05bHostOnlyRep c05bHostOnly ∧ c05bHostOnlyRep ≠ layout c05bHostOnly ∧
+    (parseRep c05dIdna .u8 (asciiStr "x?y") (some c05bHostOnlyRep)).map (fun r => (r.norm, r.partEnd)) =
+      some (asciiStr "s://h/x?y", [1, 4, 4, 4, 4, 5, 5, 5, 7, 9, 0]) ∧
+    parseRep c05dIdna .u8 (asciiStr "x?y") (some c05bHostOnlyRep) =
+      parseRep c05dIdna .u8 (asciiStr "x?y") (some (layout c05bHostOnly)) := by decide +kernel
+
+/-- `b.isFile → b.port = none` is needed: on the record {file, host h, port 8, path [p]} (which no
+    parse and no setter history produces) `append_parts(base, HOST, PATH, get_shorten_path)` copies
+    ":8" with the host, the record-level (Standard) file state copies host and path only -/
+theorem C05e_base_needs_file_noport :
+    let b : Url := { scheme := sFile, host := some ⟨.domain, asciiStr "h"⟩, port := some 8, path := [asciiStr "p"] }
+    RepOk b ∧ HostInv b ∧ RecShape b ∧
+    (parseRep c05dIdna .u8 (asciiStr "x") (some (layout b))).map (·.norm) = some (asciiStr "file://h:8/x") ∧
+    (parse c05dIdna .u8 (asciiStr "x") (some b)).map serialize = some (asciiStr "file://h/x") := by
+  decide +kernel
+
+/-! ## 3. the invariants of the setter theorems hold after a parse -/
+
+/-- Every URL the parser returns (without base, or against a base in normal form) satisfies the
+    hypotheses of C05d and of `C05e_parse_base`: it can be edited in place and used as a base again. -/
+theorem C05e_parse_repok :
+    ∀ (idna : Idna), Proofs.C02b.IdnaStable idna → ∀ (e : Enc) (units : List Nat) (base : Option Url) (u : Url),
+      (base = none ∨ ∃ b, base = some b ∧ Norm idna b) → parse idna e units base = some u →
+      RepOk u ∧ HostInv u ∧ RecShape u ∧ (u.isFile = true → u.port = none) ∧ Norm idna u := by
+  intro idna hi e units base u hb hp
+  have hn := C02_parse_norm idna hi e units base u hb hp
+  obtain ⟨a1, a2, a3, a4⟩ := C05e_norm_base idna u hn
+  exact ⟨a1, a2, a3, a4, hn⟩
+
+/-- Parse (with or without base), then any history of non-href setter calls, everything executed on
+    the stored representation (`parseRep`, then `setRep` call by call): the final representation is a
+    representation of the record the record-level parser and setters compute, the setters return
+    the same bools, and all twelve getters computed from the offsets are the record-level getters. -/
+theorem C05e_parse_then_setters :
+    ∀ (idna : Idna), Proofs.C02b.IdnaStable idna →
+    ∀ (e : Enc) (units : List Nat) (base : Option Url) (rbase : Option Rep),
+      ((base = none ∧ rbase = none) ∨
+        ∃ b rb, base = some b ∧ rbase = some rb ∧ Norm idna b ∧ RepFor rb b) →
+    ∀ (r₀ : Rep) (u₀ : Url), parseRep idna e units rbase = some r₀ → parse idna e units base = some u₀ →
+    ∀ calls : List Call, (∀ c ∈ calls, c.1 ≠ .href) →
+      let r := (runRep idna calls r₀).1
+      let u := applySetters idna u₀ calls
+      RepFor r u ∧ (runRep idna calls r₀).2 = (runRec idna calls u₀).2 ∧
+      r.href = serialize u ∧ r.protocol = getProtocol u ∧ r.username = u.username ∧
+      r.password = u.password ∧ r.host = getHost u ∧ r.hostname = getHostname u ∧
+      r.port = getPort u ∧ r.pathname = pathText u ∧ r.path = getPath u ∧
+      r.search = getSearch u ∧ r.hash = getHash u ∧
+      r.serializeNoFragment = serialize u true ∧ r.toRecord = u := by
+  intro idna hi e units base rbase hb r₀ u₀ hr hp calls hc
+  have hrep : RepFor r₀ u₀ ∧ (base = none ∨ ∃ b, base = some b ∧ Norm idna b) := by
+    rcases hb with ⟨rfl, rfl⟩ | ⟨b, rb, rfl, rfl, hn, hrb⟩
+    · exact ⟨((C05e_parse_nobase idna e units).2 r₀ u₀ hr hp).1, Or.inl rfl⟩
+    · obtain ⟨a1, a2, a3, a4⟩ := C05e_norm_base idna b hn
+      exact ⟨((C05e_parse_base idna e units b rb a1 a2 a3 a4 hrb).2 r₀ u₀ hr hp).1, Or.inr ⟨b, rfl, hn⟩⟩
+  obtain ⟨ok, hinv, sh, _, _⟩ := C05e_parse_repok idna hi e units base u₀ hrep.2 hp
+  obtain ⟨k1, k2, _⟩ := C05d_history idna calls u₀ r₀ hc ok hinv hrep.1
+  rw [runRec_fst] at k1
+  obtain ⟨g1, g2, g3, g4, g5, g6, g7, g8, g9, g10, g11, g12, g13⟩ :=
+    C05d_history_getters idna calls u₀ r₀ hc ok hinv hrep.1
+  exact ⟨k1, k2, g1, g2, g3, g4, g5, g6, g7, g8, g9, g10, g11, g12, g13 sh⟩
+
+-- evaluated: parse against a base, then protocol / host / pathname / hash on the raw representation
+example :
+    ∃ rb r₀, parseRep c05dIdna .u8 (asciiStr "https://user:pw@example.org:8080/a/b?q=1#frag") none = some rb ∧
+      parseRep c05dIdna .u8 (asciiStr "../c?d") (some rb) = some r₀ ∧
+      r₀.partEnd = [5, 8, 12, 15, 16, 27, 32, 32, 34, 36, 0] ∧
+      (runRep c05dIdna [(.protocol, .u8, asciiStr "http"), (.host, .u8, asciiStr "X.y:80"),
+          (.pathname, .u8, asciiStr "/../c d/./e/.."), (.hash, .u8, asciiStr "h")] r₀).1.norm =
+        asciiStr "http://user:pw@x.y/c%20d/?d#h" :=
+  ⟨_, _, rfl, rfl, by decide +kernel⟩
+
+/-! ## 4. non-vacuity: the model of `append_parts` bites -/
+
+/-- `append_parts` with two switches: `useDelta` — the offsets of the copied parts are shifted by
+    `delta` (url.h:2800, 2806, 2809); `copySeg` — `path_segment_count_` is taken from the source
+    (url.h:2791, 2793).  With both on it is `Ser.appendParts`. -/
+def appendPartsG (useDelta copySeg : Bool) (s : Ser) (src : Rep) (t1 t2 : Nat) (op : Option PathOp) : Ser :=
+  let ifirst :=
+    if t1 ≤ HOST then
+      if src.hostNotNull then (if t1 = USERNAME ∧ src.hasCredentials then USERNAME else HOST)
+      else PATH_PREFIX
+    else t1
+  let s0 : Ser := { s with rep := copyFlags s.rep src t1 t2 }
+  if ifirst ≤ t2 then
+    match scanDown src ifirst (t2 + 1) with
+    | none => s0
+    | some ilast =>
+      let s1 := s0.startPart ifirst
+      let lastpEnd0 := src.pe ilast
+      let setSeg (r : Rep) (n : Nat) : Rep := if copySeg then { r with segCount := n } else r
+      let (lastpEnd, r1) :=
+        if op.isSome ∧ ilast = PATH then
+          match op.bind src.pathOp with
+          | some (pe', sc') => (pe', setSeg s1.rep sc')
+          | none => (lastpEnd0, setSeg s1.rep src.segCount)
+        else if ifirst ≤ PATH ∧ PATH ≤ ilast then (lastpEnd0, setSeg s1.rep src.segCount)
+        else (lastpEnd0, s1.rep)
+      let offset := src.pe (ifirst - 1) + kPartStart.getD ifirst 0
+      let len := r1.norm.length
+      let shift (x : Nat) : Nat := if useDelta then x + len - offset else x
+      let norm' := r1.norm ++ slice src.norm offset lastpEnd
+      let pe' := r1.partEnd.take ifirst ++
+        ((src.partEnd.drop ifirst).take (ilast - ifirst)).map shift ++ [shift lastpEnd] ++
+        r1.partEnd.drop (ilast + 1)
+      ⟨{ r1 with norm := norm', partEnd := pe' }, ilast⟩
+  else s0
+
+theorem C05e_appendPartsG_model : appendPartsG true true = Ser.appendParts := by
+  funext s src t1 t2 op
+  rfl
+
+/-- WITHOUT the `delta` shift: a file base with credentials `file://u@h/p` (satisfies the hypotheses
+    of `C05e_parse_base`; the copied text starts after "u@", two characters further than in the
+    destination) and the reference `x` (file state: `append_parts(base, HOST, PATH, get_shorten_path)`).
+    The real operation yields a representation of {file, host h, path []}, the one without the
+    shift does not (offsets beyond the end of the string). -/
+theorem C05e_bites_append_no_delta :
+    let b : Url := { scheme := sFile, username := asciiStr "u", host := some ⟨.domain, asciiStr "h"⟩,
+                     path := [asciiStr "p"] }
+    let s : Ser := (Ser.new.setSchemeStr sFile).setEmptyHost
+    let expected : Url := { scheme := sFile, host := some ⟨.domain, asciiStr "h"⟩ }
+    RepOk b ∧ HostInv b ∧ RecShape b ∧ (b.isFile = true → b.port = none) ∧
+    (layout b).norm = asciiStr "file://u@h/p" ∧
+    (s.appendParts (layout b) HOST PATH (some .shorten)).rep.norm = asciiStr "file://h" ∧
+    (s.appendParts (layout b) HOST PATH (some .shorten)).rep.partEnd = [4, 7, 7, 7, 7, 8, 8, 8, 8, 0, 0] ∧
+    RepFor (s.appendParts (layout b) HOST PATH (some .shorten)).rep expected ∧
+    (appendPartsG false true s (layout b) HOST PATH (some .shorten)).rep.partEnd =
+      [4, 7, 7, 7, 7, 10, 10, 10, 10, 0, 0] ∧
+    ¬ RepFor (appendPartsG false true s (layout b) HOST PATH (some .shorten)).rep expected ∧
+    (parseRep c05dIdna .u8 (asciiStr "x") (some (layout b))).map (fun r => (r.norm, r.partEnd)) =
+      some (asciiStr "file://h/x", [4, 7, 7, 7, 7, 8, 8, 8, 10, 0, 0]) := by decide +kernel
+
+/-- WITHOUT copying `path_segment_count_`: base `http://h/a/b`, reference `?q` (relative state:
+    `append_parts(base, USERNAME, PATH)`): the count stays 0 instead of 2 -/
+theorem C05e_bites_append_no_segcount :
+    let b : Url := { scheme := asciiStr "http", host := some ⟨.domain, asciiStr "h"⟩,
+                     path := [asciiStr "a", asciiStr "b"] }
+    let s : Ser := Ser.new.setSchemeOf (layout b)
+    let expected : Url := b
+    (s.appendParts (layout b) USERNAME PATH none).rep.norm = asciiStr "http://h/a/b" ∧
+    (s.appendParts (layout b) USERNAME PATH none).rep.segCount = 2 ∧
+    RepFor (s.appendParts (layout b) USERNAME PATH none).rep expected ∧
+    (appendPartsG true false s (layout b) USERNAME PATH none).rep.norm = asciiStr "http://h/a/b" ∧
+    (appendPartsG true false s (layout b) USERNAME PATH none).rep.segCount = 0 ∧
+    ¬ RepFor (appendPartsG true false s (layout b) USERNAME PATH none).rep expected := by decide +kernel
 
 #print axioms C05e_parse_nobase
+#print axioms C05e_parse_nobase_iff
+#print axioms C05e_parse_base
+#print axioms C05e_parse_base_layout
+#print axioms C05e_norm_base
+#print axioms C05e_base_needs_file_noport
+#print axioms C05e_parse_repok
+#print axioms C05e_parse_then_setters
+#print axioms C05e_appendPartsG_model
+#print axioms C05e_bites_append_no_delta
+#print axioms C05e_bites_append_no_segcount
+
 end Upa.Props
